@@ -256,13 +256,9 @@ def _units(o):
         yield spec, o["gen"].get(sid) or o.get("singles_gen", {}).get(sid), o["build"].get(sid), o["run"].get(sid), o["scripts"].get(sid)
 
 
-def oracle_c04_scope(obs, rep, tier):
-    import oracles as O
-    o = obs["scope"]
-    # (a) the shared trace oracle on the members without undocumented aspects
-    plain = dict(o)
-    plain["built_specs"] = [s for s in o.get("built_specs", []) if s.get("scope", {}).get("fully_judged", True)]
-    lvl, cov_a, asm = O.eval_values({"scope": plain}, rep, tier, "C04")
+def _direct_check(o):
+    """-> (pending violations [(spec id, key, what, case)], counters...)"""
+    pending = []
     # (b) direct check
     n_req = 0
     hist = collections.Counter()
@@ -289,15 +285,15 @@ def oracle_c04_scope(obs, rep, tier):
             continue
         st = run.get("startup")
         if not st or not st.get("ok"):
-            rep.violation("scope:startup-failure", f"server of {spec['id']} did not start: {st}", {"oracle": "C04", "spec": spec, "startup": st})
+            pending.append((spec["id"], "scope:startup-failure", f"server of {spec['id']} did not start: {st}", {"oracle": "C04", "spec": spec, "startup": st}))
             continue
         by_handler = {r["cid"]: r for r in sc["routes"]}
         for req, resp in zip(script, run["responses"]):
             events = M.parse_trace(resp.get("trace", []))
             calls = [e for e in events if e["e"] == "call" and e["kind"] == "handler"]
             if len(calls) != 1 or calls[0]["cid"] not in by_handler:
-                rep.violation("scope:handler-not-reached", f"{spec['id']} {req['path']}: expected exactly one handler call, trace {resp.get('trace')}",
-                              {"oracle": "C04", "spec": spec, "request": req, "trace": resp.get("trace"), "status": resp.get("status")})
+                pending.append((spec["id"], "scope:handler-not-reached", f"{spec['id']} {req['path']}: expected exactly one handler call, trace {resp.get('trace')}",
+                                {"oracle": "C04", "spec": spec, "request": req, "trace": resp.get("trace"), "status": resp.get("status")}))
                 continue
             r = by_handler[calls[0]["cid"]]
             n_req += 1
@@ -340,11 +336,38 @@ def oracle_c04_scope(obs, rep, tier):
                 strip = lambda x: x.split("/")[0].split("#")[0]
                 rel_o = strip(relation(sc["shape"], sc["regs"], r["bp"], got)) if ty.startswith("T0") and got else str(got)
                 lc_exp = next((op.get("lc") for _, op in _walk_ops(spec["bp"]["ops"]) if op.get("c") == exp), "?")
-                rep.violation(f"scope:wrong-constructor:{r['kind']}:designated_is_{lc_exp}:observed={rel_o}",
+                pending.append((spec["id"], f"scope:wrong-constructor:{r['kind']}:designated_is_{lc_exp}:observed={rel_o}",
                               f"{spec['id']} {req['path']}: the {r['kind']} route in blueprint {r['bp']} of tree {sc['shape']} with registrations "
                               f"{sc['regs']} (lifecycles {sc['lc']}) received a {ty} built by {got}; the blueprint designates {exp}",
                               {"oracle": "C04", "spec": spec, "request": req, "route": r, "trace": resp.get("trace"),
-                               "startup_trace": st.get("trace")})
+                               "startup_trace": st.get("trace")}))
+    return pending, n_req, hist, unspec, gen_hist, distinct, samples
+
+
+def oracle_c04_scope(obs, rep, tier):
+    import oracles as O
+    o = obs["scope"]
+    # (a) the shared trace oracle on the members without undocumented aspects
+    plain = dict(o)
+    plain["built_specs"] = [s for s in o.get("built_specs", []) if s.get("scope", {}).get("fully_judged", True)]
+    lvl, cov_a, asm = O.eval_values({"scope": plain}, rep, tier, "C04")
+    # (b) direct check; a violating member is observed once more (pavexc, rustc, server) before it is reported
+    pending, n_req, hist, unspec, gen_hist, distinct, samples = _direct_check(o)
+    n_reexecuted = 0
+    if pending:
+        import orchestrator
+        bad_ids = sorted({p[0] for p in pending})
+        redo = [sp for sp in o["specs"] if sp["id"] in bad_ids]
+        n_reexecuted = len(redo)
+        o2 = orchestrator.observe_specs(redo, f"{L.E2E_WORK}/scope-recheck", with_run=True, batch_size=60)
+        o2["specs"] = redo
+        o2["built_specs"] = [sp for sp in redo if sp["id"] in o2["build"]]
+        again = {(p[0], p[1]) for p in _direct_check(o2)[0]}
+        for sid, key, what, case in pending:
+            if (sid, key) in again:
+                rep.violation(key, what, case)
+            else:
+                raise L.MachineryError(f"nondeterministic: {sid} violated {key} in the first observation but not when re-executed")
     cov = {
         "evaluations": n_req + cov_a["evaluations"], "distinct_nontrivial": len(distinct), "exhaustive": True,
         "rule": "nesting trees R | R>A | R>A,R>B" + (" | R>A>B" if tier == "thorough" else "") + "; constructor of T0 registered 0/1/2 times "
@@ -361,7 +384,7 @@ def oracle_c04_scope(obs, rep, tier):
         "unspecified_shadowed_dependency": dict(sorted(unspec.items())),
         "generation_histogram": dict(sorted(gen_hist.items())),
         "shared_trace_oracle": {k: v for k, v in cov_a.items() if k in ("evaluations", "distinct_nontrivial", "type_site_histogram")},
-        "specs": len(o.get("specs", [])),
+        "specs": len(o.get("specs", [])), "members_re_executed_before_reporting": n_reexecuted,
     }
     return "exploration", cov, asm + ["which scope resolves the dependencies of a constructor inherited from an outer blueprint is undocumented"]
 
@@ -381,7 +404,18 @@ def oracle_c01_scope(obs, rep, tier):
 
 def oracle_c09_scope(obs, rep, tier):
     import oracles as O
-    return O.oracle_c09({"scope": obs["scope"]}, rep, tier)
+    import fam_plant
+    o = obs["scope"]
+    suspicious = [s for s in o["specs"] if s["id"] in o["gen"] and (
+        fam_plant.outcome_of(o["gen"][s["id"]]) in ("hang", "panic", "rejected_uncleanly") or o["gen"][s["id"]].get("root_manifest_changed")
+        or o["gen"][s["id"]]["exit"] not in (0, 1))]
+    gen, n_replaced = fam_plant.settle(o, suspicious, "scope-c09")
+    o2 = dict(o)
+    o2["gen"] = gen
+    lvl, cov, asm = O.oracle_c09({"scope": o2}, rep, tier)
+    cov["re_executed_before_reporting"] = len(suspicious)
+    cov["transient_timeouts_or_interference_replaced_by_second_run"] = n_replaced
+    return lvl, cov, asm
 
 
 def oracle_c02_scope(obs, rep, tier):
